@@ -12,7 +12,7 @@ from .core import Program, VP
 from .fx import FX
 
 HERE = os.path.dirname(os.path.dirname(os.path.abspath(__file__)))
-CONFIGS = ("std", "serde", "nostd")
+CONFIGS = ("std", "serde", "nostd", "dbg")
 
 
 class CheckError(Exception):
